@@ -128,7 +128,7 @@ def handle : List String → String
         | _ => "?"
       resStr (fun (h : Opus.CeltSymsEnc.EncHdr) =>
         let ops := if h.ops.isEmpty then "-" else ",".intercalate (h.ops.map opStr)
-        s!"ops={ops} fin={h.enc.rng},{h.enc.val},{h.enc.nbitsTotal},{h.enc.offs},{h.enc.storage}")
+        s!"ops={ops} fin={h.enc.rng},{h.enc.val},{h.enc.nbitsTotal},{h.enc.offs},{h.enc.storage} st={if e1.storage = size then 1 else 0}")
         (Opus.CeltSymsEnc.encHeader cfg { e := e1, ds := ds })
     | _, _, _, _, _, _, _, _, _ => "bad-op"
   | ["coarse", st, en, c, lm, lfe, size, ctx, ds] =>
@@ -138,7 +138,7 @@ def handle : List String → String
       if cx.length ≠ 11 then "bad-op" else
       let cfg : Opus.CeltSymsEnc.EncCfg := { start := st, end_ := en, C := c, LM := lm, vbr := false, lfe := lfe ≠ 0, size := size }
       resStr (fun (r : Nat × List Int × List Int × Opus.CeltSymsEnc.St) =>
-        s!"ops={opsStr r.2.2.2.ops} fin={r.2.2.2.e.rng},{r.2.2.2.e.val},{r.2.2.2.e.nbitsTotal},{r.2.2.2.e.offs},{r.2.2.2.e.storage} q={intList r.2.1}")
+        s!"ops={opsStr r.2.2.2.ops} fin={r.2.2.2.e.rng},{r.2.2.2.e.val},{r.2.2.2.e.nbitsTotal},{r.2.2.2.e.offs},{r.2.2.2.e.storage} q={intList (List.zipWith (fun q qd => if q < -1 ∧ qd = -1 then qd else q) r.2.1 r.2.2.1)}")
         (Opus.CeltSymsEnc.encCoarse cfg ((size * 8 : Nat) : Int) { e := ctxOf cx, ds := ds })
     | _, _, _, _, _, _, _, _ => "bad-op"
   | _ => "bad-op"
